@@ -595,10 +595,18 @@ fn shake_0(expression: Expression) -> Expression {
                 }
             }
         }
-        Expression::Match(m, expression) => {
-            let expression = shake_0(*expression);
-            Expression::Match(m, Box::new(expression))
-        }
+        Expression::Match(m, expression) => match *expression {
+            // NOTE: A group directly under a match is the list of operands being counted, so it
+            // must stay a group even when it has a single member
+            Expression::BooleanGroup(symbol, expressions) => {
+                let mut scratch = vec![];
+                for expression in expressions {
+                    scratch.push(shake_0(expression));
+                }
+                Expression::Match(m, Box::new(Expression::BooleanGroup(symbol, scratch)))
+            }
+            expression => Expression::Match(m, Box::new(shake_0(expression))),
+        },
         Expression::Negate(expression) => {
             let expression = shake_0(*expression);
             match expression {
